@@ -4,7 +4,8 @@ import itertools
 from lib.sx import *
 from lib import obs, pyspec
 
-NAMES = ["$X", "$Y", "$Z", "$Long_name", "$x", "$X1"]
+NAMES = ["$X", "$Y", "$Z", "$Long_name", "$x", "$X1", "$TemperatureReadingCelsius", "$TemperatureReadingKelvin",
+         "$A_name_of_more_than_thirty_two_characters_1", "$A_name_of_more_than_thirty_two_characters_2", "$\u00c9t\u00e9"]
 def V(rng, zero=True):
     return var(0 if zero or rng.random() < 0.7 else rng.randint(1, 9), rng.choice(NAMES))
 
@@ -102,13 +103,21 @@ def cases(tier, rng):
     from gen.progs import C, U, AND, OR, fact, i as I_
     A_, B_, W_, Z_, H_, T_, X, Y = (var(0, n) for n in ("$A", "$B", "$W", "$Z", "$H", "$T", "$X", "$Y"))
     wraps = [fact("w", cplx("box", X)), fact("w", lst([H_], T_)), fact("w", cplx("f", cplx("g", X), Y)), fact("w", lst([X, Y])), fact("w", cplx("box", lst([X])))]
-    picks = [rule(cplx("pk", Z_), U(Z_, I_(7))), rule(cplx("pk", Z_), AND(C("n", Z_), U(W_, Z_))), rule(cplx("pk", lst([Z_], W_)), U(Z_, I_(1)))]
+    picks = [[rule(cplx("pk", Z_), U(Z_, I_(7)))], [rule(cplx("pk", Z_), AND(C("n", Z_), U(W_, Z_)))], [rule(cplx("pk", lst([Z_], W_)), U(Z_, I_(1)))],
+             # a clause whose head does NOT match comes first (the counter is restored after it), then one that does and fetches more
+             [fact("pk", atom("zzz")), rule(cplx("pk", Z_), AND(C("w", W_), U(W_, Z_)))],
+             [fact("pk", cplx("other", X)), fact("pk", atom("zzz")), rule(cplx("pk", cplx("box", Z_)), AND(C("k", Z_), C("w", W_)))]]
     for wf in wraps:
         for pk in picks:
-            for body in (AND(C("w", A_), C("pk", B_)), AND(C("w", A_), C("w", B_), C("pk", B_)), AND(C("pk", B_), C("w", A_), C("pk", A_)),
+            for body in (AND(C("w", A_), C("pk", B_)), AND(C("w", A_), C("w", B_), C("pk", B_)), AND(C("pk", B_), C("w", A_), C("pk", A_)), AND(C("w", A_), C("pk", A_), C("w", B_)),
                          OR(AND(C("w", A_), C("pk", B_)), C("w", B_))):
-                rules = list(progs.LIB) + [wf, pk, rule(cplx("t", A_, B_), body)]
+                rules = list(progs.LIB) + [wf] + pk + [rule(cplx("t", A_, B_), body)]
                 out.append((progs.hist(rules, [progs.build(0, [atom("t"), var(0, "$P"), var(0, "$Q")])] + [progs.ask(0)] * 5), "search-fresh"))
+                # the same search with the id counter moved up first (the public set_var_id): ids that pass 2^8 and 2^16 during the search
+                out.append((progs.hist(rules, [progs.build(0, [atom("t"), var(0, "$P"), var(0, "$Q")]), "(set-id 250)"] + [progs.ask(0)] * 5), "search-fresh"))
+                for sid in (65529, 65530, 65531, 65532, 65533, 65534, 65535):
+                    if rng.random() < (0.2 if tier == "quick" else 1.0):
+                        out.append((progs.hist(rules, [progs.build(0, [atom("t"), var(0, "$P"), var(0, "$Q")]), "(set-id %d)" % sid] + [progs.ask(0)] * 2), "search-fresh"))
     out.append(("(rename-goal 0 gnil)", "malformed"))
     out.append(("(rename-goal 0 %s)" % call(atom("notcomplex")), "malformed"))
     out.append(("(make-query (%s))" % var(0, "$X"), "malformed"))
@@ -119,10 +128,10 @@ def cases(tier, rng):
     return res
 
 RULE = ("every term of the 119-term unification universe and random terms (depth <= 3: atoms, numbers, $_, [], variables with "
-        "6 names and stale ids, complex terms, lists with tail variable / $_ tail, function terms, nested empty lists), goals "
+        "11 names (also long ones that agree in their first 16 / 32 characters, and a non-ASCII one) and stale ids, complex terms, lists with tail variable / $_ tail, function terms, nested empty lists), goals "
         "(calls, built-ins, !/fail/nl, nested and/or/not/time) and rules, renamed from several counter values; queries through "
         "make_query; searches in which facts with variables inside structures meet unbound goal variables before further clauses "
-        "are fetched (answers against the exact reference search); clause fetch (get_rule) from knowledge bases of 1-3 clauses whose variables sit only inside lists, nested "
+        "are fetched (answers against the exact reference search; also with the id counter first moved to 250 and to 65529..65535 with set_var_id, so that ids pass 2^8 and 2^16 during the search); clause fetch (get_rule) from knowledge bases of 1-3 clauses whose variables sit only inside lists, nested "
         "complex terms or function terms, at several counters. Oracle on the implementation's own results (python twin of Proofs/RenameProofs definitions): erasing ids "
         "gives back the input with ids erased; same name <-> same id; every id is above the old counter and at most the new "
         "one. Non-trivial = at least two distinct names and one repeated name.")
@@ -152,9 +161,25 @@ def relations(cases, impl, model):
     hs = [k for k, (c, t) in enumerate(cases) if t == "search-fresh"]
     for v in hrel([cases[k] for k in hs], [impl[k] for k in hs], [model[k] for k in hs]):
         yield v
-    REL_STATS.clear(); REL_STATS.update(oracle_checks=0); REL_STATS.update(_HSTATS)
+    REL_STATS.clear(); REL_STATS.update(oracle_checks=0, counter_above_ids_checks=0); REL_STATS.update(_HSTATS)
     for (case, tag), (out, res) in zip(cases, impl):
-        if tag in ("malformed", "search-fresh"): continue
+        if tag == "search-fresh":
+            # freshness during a search: the id counter reported with an answer is never below an id in use in that answer
+            # (the next clause fetched takes its ids from the counter)
+            try:
+                for o in parse(res)[1:]:
+                    if isinstance(o, list) and o[0] == "ans" and isinstance(o[1], list) and o[1][0] == "ss":
+                        acc = []; occ(o[1], acc)
+                        used = [i for i, _ in acc] + [k for k, e in enumerate(o[1][1:]) if e != "-"]
+                        REL_STATS["counter_above_ids_checks"] += 1
+                        if used and max(used) > int(o[3]):
+                            yield dict(case=case, tag=tag, implementation=dict(result=res[:400] + " ... " + res[-120:]),
+                                       why="the id counter after an answer is %s, below the variable id %d that the answer uses: the next clause fetched is not renamed apart from it" % (o[3], max(used)))
+                            break
+            except Exception:
+                pass
+            continue
+        if tag in ("malformed",): continue
         c = parse(case)
         try: r = parse(res)
         except Exception: r = None
